@@ -50,7 +50,12 @@ Skeletons == SubSeq(LongSkeletons, 1, LongN) \o
      <<"DateTime", <<TX("d gt "), HA>>>>, <<"DateTime", <<TX("year(d) eq 2031 and d lt "), HA>>>>,
      <<"Time", <<TX("tt lt "), HA>>>>,
      <<"Duration", <<TX("du eq "), HA>>>>, <<"Duration", <<TX("d add "), HA, TX(" gt d")>>>>,
-     <<"GUID", <<TX("gid eq "), HA>>>>, <<"GUID", <<TX("gid in ("), HA, TX(", "), HB, TX(")")>>>> >>
+     <<"GUID", <<TX("gid eq "), HA>>>>, <<"GUID", <<TX("gid in ("), HA, TX(", "), HB, TX(")")>>>>,
+     \* a fixed literal that coincides with the varied one in one of the two texts only (first value of the kind's first pair)
+     <<"DateTime", <<TX("d ge "), HA, TX(" and d lt 2031-07-03T07:31:03Z")>>>>, <<"Date", <<TX("dd ge "), HA, TX(" and dd le 2031-07-03")>>>>,
+     <<"Time", <<TX("tt ge "), HA, TX(" or tt eq 07:31:03")>>>>, <<"Duration", <<TX("du gt "), HA, TX(" or du eq duration'P73D'")>>>>,
+     <<"Integer", <<TX("n ge "), HA, TX(" and n le 7301")>>>>, <<"String", <<TX("s eq "), HA, TX(" or u eq 'q7x'")>>>>,
+     <<"GUID", <<TX("gid eq "), HA, TX(" or gid eq 73017301-89ab-cdef-0123-456789abcdef")>>>> >>
 \* value pairs per kind: <<spelling A, spelling B>> for the first member, and the same for the second member
 StrSp(c) == <<Q>> \o EscapeQuotes(c) \o <<Q>>
 Values ==
